@@ -26,6 +26,14 @@ CLAIMS = {
         "text": "Static revocation-visibility rule: reports the window between publication of the connection id (on_connect) and the registry insert when a suspension point lies between them and a missed disconnect leaves no state that registration consults (currently a recorded known finding); plus: disconnect only shuts down connections found under the given endpoint/connection id.",
         "technique": "must-precede + yield-between on coroutine MIR, who-writes/reads of registry fields, success-edge dominance",
     },
+    "C09": {
+        "text": "Decides the gating shape of the receive rate limiter on all paths: inner stream polled only when no refill sleep is pending or it was polled Ready; every completed read is charged with the measured amount before Ready(Ok); over-draft stores sleep_until(deadline); live update replaces bucket and clears the sleep together; Bucket's divisors are non-zero by a constructor-established invariant. The numeric rate bound, timing and overflow for extreme parameters are NOT decided.",
+        "technique": "success-edge dominance and must-pass-through on MIR, derives-from on the charged amount, constructor-invariant + who-writes for division safety",
+    },
+    "C10": {
+        "text": "Sibling-table agreement on the relay codec: typ() vs decoder arm relation per enum, symbolic size agreement of write_to vs encoded_len per variant, batch<=>segment-size consistency across the four Datagrams functions, version gating of Health/Status, all size checks bound the same quantity by the same const with the right orientation, websocket limits, distinct single-byte tags. Byte-exact round trip and panic-freedom of decoding are NOT decided (fuzzed by existing proptests).",
+        "technique": "match-arm table extraction from MIR and relational comparison; same-const and orientation checks on comparison statements; ADT discriminant table",
+    },
 }
 
 _PENDING = "rules for this property are not implemented yet in this revision (see DESIGN.md §4 for the planned structural clauses)"
